@@ -1,18 +1,27 @@
 import PewModel.Effects
 namespace Pew.Effects
 
-/-! ## soundness -/
+/-! ## soundness of `ana`
+
+Abstraction of an object is its first component (parameter index, or `np +` allocation site). -/
 
 def A.may (a : A) (x : Var) (o : Nat) : Prop := a.top = true ∨ o ∈ a.raw x
+def A.mayE (a : A) (e : AEdge) : Prop := a.top = true ∨ e ∈ a.heap
+def A.mayK (a : A) (k : Nat) : Prop := a.top = true ∨ k ∈ a.alloc
 def A.mayW (a : A) (o : Nat) : Prop := a.top = true ∨ o ∈ a.w
 def A.mayR (a : A) (o : Nat) : Prop := a.top = true ∨ o ∈ a.r
 
-/-- written / returned parameters are covered by the abstract state -/
-def WRel (np : Nat) (σ : St) (a : A) : Prop :=
-  (∀ o, o ∈ σ.written → o < np → a.mayW o) ∧ (∀ o, o ∈ σ.returned → o < np → a.mayR o)
+def absE (e : Edge) : AEdge := (e.1.1, e.2.1, e.2.2.1)
 
+/-- the part of the relation that holds whether or not the execution completed (the analysis never forgets it):
+written parameters, returned objects and heap edges are covered by the abstract state -/
+def WRel (np : Nat) (σ : St) (a : A) : Prop :=
+  (∀ o, o ∈ σ.written → o.1 < np → a.mayW o.1) ∧ (∀ o, o ∈ σ.returned → a.mayR o.1) ∧
+  (∀ e, e ∈ σ.heap → a.mayE (absE e))
+
+/-- every variable's object and every allocated object is covered too -/
 def Rel (np : Nat) (σ : St) (a : A) : Prop :=
-  (∀ x o, σ.env x = some o → o < np → a.may x o) ∧ WRel np σ a ∧ np ≤ σ.next
+  (∀ x o, σ.env x = some o → a.may x o.1) ∧ (∀ o, o ∈ σ.objs → a.mayK o.1) ∧ WRel np σ a
 
 theorem lookup_filter_ne {β : Type} (l : List (Var × β)) (x y : Var) (h : y ≠ x) :
     (l.filter (fun p => p.1 != x)).lookup y = l.lookup y := by
@@ -88,6 +97,26 @@ theorem may_join_r (a b : A) (x : Var) (o : Nat) (h : b.may x o) : (joinA a b).m
   · left; simp [joinA, h]
   · right; exact raw_join a b x o (Or.inr h)
 
+theorem mayE_join_l (a b : A) (e : AEdge) (h : a.mayE e) : (joinA a b).mayE e := by
+  rcases h with h | h
+  · left; simp [joinA, h]
+  · right; simp [joinA, h]
+
+theorem mayE_join_r (a b : A) (e : AEdge) (h : b.mayE e) : (joinA a b).mayE e := by
+  rcases h with h | h
+  · left; simp [joinA, h]
+  · right; simp [joinA, h]
+
+theorem mayK_join_l (a b : A) (k : Nat) (h : a.mayK k) : (joinA a b).mayK k := by
+  rcases h with h | h
+  · left; simp [joinA, h]
+  · right; simp [joinA, h]
+
+theorem mayK_join_r (a b : A) (k : Nat) (h : b.mayK k) : (joinA a b).mayK k := by
+  rcases h with h | h
+  · left; simp [joinA, h]
+  · right; simp [joinA, h]
+
 theorem mayW_join_l (a b : A) (o : Nat) (h : a.mayW o) : (joinA a b).mayW o := by
   rcases h with h | h
   · left; simp [joinA, h]
@@ -109,55 +138,78 @@ theorem mayR_join_r (a b : A) (o : Nat) (h : b.mayR o) : (joinA a b).mayR o := b
   · right; simp [joinA, h]
 
 theorem wrel_join_l {np σ} (a b : A) (h : WRel np σ a) : WRel np σ (joinA a b) :=
-  ⟨fun o h1 h2 => mayW_join_l a b o (h.1 o h1 h2), fun o h1 h2 => mayR_join_l a b o (h.2 o h1 h2)⟩
+  ⟨fun o h1 h2 => mayW_join_l a b _ (h.1 o h1 h2), fun o h1 => mayR_join_l a b _ (h.2.1 o h1),
+   fun e he => mayE_join_l a b _ (h.2.2 e he)⟩
 theorem wrel_join_r {np σ} (a b : A) (h : WRel np σ b) : WRel np σ (joinA a b) :=
-  ⟨fun o h1 h2 => mayW_join_r a b o (h.1 o h1 h2), fun o h1 h2 => mayR_join_r a b o (h.2 o h1 h2)⟩
+  ⟨fun o h1 h2 => mayW_join_r a b _ (h.1 o h1 h2), fun o h1 => mayR_join_r a b _ (h.2.1 o h1),
+   fun e he => mayE_join_r a b _ (h.2.2 e he)⟩
 
 theorem rel_join_l {np σ} (a b : A) (h : Rel np σ a) : Rel np σ (joinA a b) :=
-  ⟨fun x o h1 h2 => may_join_l a b x o (h.1 x o h1 h2), wrel_join_l a b h.2.1, h.2.2⟩
+  ⟨fun x o h1 => may_join_l a b x _ (h.1 x o h1), fun o ho => mayK_join_l a b _ (h.2.1 o ho), wrel_join_l a b h.2.2⟩
 theorem rel_join_r {np σ} (a b : A) (h : Rel np σ b) : Rel np σ (joinA a b) :=
-  ⟨fun x o h1 h2 => may_join_r a b x o (h.1 x o h1 h2), wrel_join_r a b h.2.1, h.2.2⟩
+  ⟨fun x o h1 => may_join_r a b x _ (h.1 x o h1), fun o ho => mayK_join_r a b _ (h.2.1 o ho), wrel_join_r a b h.2.2⟩
+
+/-- what `leA a b = true` gives when `b` is not top -/
+theorem leA_parts {a b : A} (h : leA a b = true) (hb : ¬ b.top = true) :
+    a.top = false ∧ (∀ x ∈ a.vars, ∀ p ∈ a.raw x, p ∈ b.raw x) ∧ (∀ e ∈ a.heap, e ∈ b.heap) ∧
+    (∀ k ∈ a.alloc, k ∈ b.alloc) ∧ (∀ p ∈ a.w, p ∈ b.w) ∧ (∀ p ∈ a.r, p ∈ b.r) := by
+  unfold leA at h
+  simp [hb] at h
+  obtain ⟨⟨⟨⟨⟨hat, hv⟩, hh⟩, hk⟩, hw⟩, hr⟩ := h
+  exact ⟨hat, hv, fun e he => hh e.1 e.2.1 e.2.2 he, hk, hw, hr⟩
 
 theorem le_may {a b : A} (h : leA a b = true) (x : Var) (o : Nat) (hm : a.may x o) : b.may x o := by
-  unfold leA at h
   by_cases hb : b.top = true
   · left; exact hb
-  · simp [hb] at h
-    obtain ⟨⟨⟨hat, hv⟩, _⟩, _⟩ := h
+  · obtain ⟨hat, hv, _⟩ := leA_parts h hb
     rcases hm with hm | hm
     · simp [hat] at hm
-    · right
-      have := hv x (raw_mem_vars hm) o hm
-      simpa using this
+    · right; exact hv x (raw_mem_vars hm) o hm
+
+theorem le_mayE {a b : A} (h : leA a b = true) (e : AEdge) (hm : a.mayE e) : b.mayE e := by
+  by_cases hb : b.top = true
+  · left; exact hb
+  · obtain ⟨hat, _, hh, _⟩ := leA_parts h hb
+    rcases hm with hm | hm
+    · simp [hat] at hm
+    · right; exact hh e hm
+
+theorem le_mayK {a b : A} (h : leA a b = true) (k : Nat) (hm : a.mayK k) : b.mayK k := by
+  by_cases hb : b.top = true
+  · left; exact hb
+  · obtain ⟨hat, _, _, hk, _⟩ := leA_parts h hb
+    rcases hm with hm | hm
+    · simp [hat] at hm
+    · right; exact hk k hm
 
 theorem le_mayW {a b : A} (h : leA a b = true) (o : Nat) (hm : a.mayW o) : b.mayW o := by
-  unfold leA at h
   by_cases hb : b.top = true
   · left; exact hb
-  · simp [hb] at h
-    obtain ⟨⟨⟨hat, _⟩, hw⟩, _⟩ := h
+  · obtain ⟨hat, _, _, _, hw, _⟩ := leA_parts h hb
     rcases hm with hm | hm
     · simp [hat] at hm
-    · right; simpa using hw o hm
+    · right; exact hw o hm
 
 theorem le_mayR {a b : A} (h : leA a b = true) (o : Nat) (hm : a.mayR o) : b.mayR o := by
-  unfold leA at h
   by_cases hb : b.top = true
   · left; exact hb
-  · simp [hb] at h
-    obtain ⟨⟨⟨hat, _⟩, _⟩, hr⟩ := h
+  · obtain ⟨hat, _, _, _, _, hr⟩ := leA_parts h hb
     rcases hm with hm | hm
     · simp [hat] at hm
-    · right; simpa using hr o hm
+    · right; exact hr o hm
 
 theorem wrel_le {np σ} {a b : A} (h : leA a b = true) (hr : WRel np σ a) : WRel np σ b :=
-  ⟨fun o h1 h2 => le_mayW h o (hr.1 o h1 h2), fun o h1 h2 => le_mayR h o (hr.2 o h1 h2)⟩
+  ⟨fun o h1 h2 => le_mayW h _ (hr.1 o h1 h2), fun o h1 => le_mayR h _ (hr.2.1 o h1),
+   fun e he => le_mayE h _ (hr.2.2 e he)⟩
 
 theorem rel_le {np σ} {a b : A} (h : leA a b = true) (hr : Rel np σ a) : Rel np σ b :=
-  ⟨fun x o h1 h2 => le_may h x o (hr.1 x o h1 h2), wrel_le h hr.2.1, hr.2.2⟩
+  ⟨fun x o h1 => le_may h x _ (hr.1 x o h1), fun o ho => le_mayK h _ (hr.2.1 o ho), wrel_le h hr.2.2⟩
 
-theorem rel_top {np σ} (h : np ≤ σ.next) : Rel np σ topA :=
-  ⟨fun _ _ _ _ => Or.inl rfl, ⟨fun _ _ _ => Or.inl rfl, fun _ _ _ => Or.inl rfl⟩, h⟩
+theorem wrel_top {np σ} : WRel np σ topA :=
+  ⟨fun _ _ _ => Or.inl rfl, fun _ _ => Or.inl rfl, fun _ _ => Or.inl rfl⟩
+
+theorem rel_top {np σ} : Rel np σ topA :=
+  ⟨fun _ _ _ => Or.inl rfl, fun _ _ => Or.inl rfl, wrel_top⟩
 
 theorem may_set_ne {a : A} {x y : Var} {ps : List Nat} {o : Nat} (hne : y ≠ x) (h : a.may y o) :
     (a.set x ps).may y o := by
@@ -168,47 +220,134 @@ theorem may_set_ne {a : A} {x y : Var} {ps : List Nat} {o : Nat} (hne : y ≠ x)
 theorem may_set_eq {a : A} {x : Var} {ps : List Nat} {o : Nat} (h : o ∈ ps) : (a.set x ps).may x o := by
   right; rw [raw_set]; simp [h]
 
-/-- the analysis never forgets a possibly-written or possibly-returned parameter -/
+/-- binding `x` to an object whose abstraction is in `ps` (or the state is top) keeps the variables covered -/
+theorem env_bind {a : A} {σ : St} {x : Var} {o : Obj} {ps : List Nat}
+    (hr : ∀ y o', σ.env y = some o' → a.may y o'.1) (ho : a.top = true ∨ o.1 ∈ ps) :
+    ∀ y o', upd σ.env x o y = some o' → (a.set x ps).may y o'.1 := by
+  intro y o' hy
+  by_cases hyx : y = x
+  · subst hyx
+    simp [upd] at hy; subst hy
+    rcases ho with ht | hm
+    · exact Or.inl ht
+    · exact may_set_eq hm
+  · simp [upd, hyx] at hy
+    exact may_set_ne hyx (hr y o' hy)
+
+/-! ### targets and closure -/
+
+theorem mem_targets {h : List AEdge} {os : List Nat} {l l' : Lbl} {o o' : Nat}
+    (he : (o, l', o') ∈ h) (ho : o ∈ os) (hl : lmatch l l' = true) : o' ∈ targets h os l := by
+  unfold targets
+  rw [List.mem_filterMap]
+  exact ⟨(o, l', o'), he, by simp [ho, hl]⟩
+
+theorem mem_succs {h : List AEdge} {os : List Nat} {l : Lbl} {o o' : Nat}
+    (he : (o, l, o') ∈ h) (ho : o ∈ os) : o' ∈ succs h os := by
+  unfold succs
+  rw [List.mem_filterMap]
+  exact ⟨(o, l, o'), he, by simp [ho]⟩
+
+theorem closeN_mono (h : List AEdge) : ∀ (n : Nat) (os : List Nat) (o : Nat), o ∈ os → o ∈ closeN h n os := by
+  intro n
+  induction n with
+  | zero => intro os o ho; exact ho
+  | succ n ih =>
+    intro os o ho
+    show o ∈ closeN h n (os ++ succs h os).eraseDups
+    apply ih
+    rw [List.mem_eraseDups]
+    exact List.mem_append_left _ ho
+
+theorem closed_step {h : List AEdge} {c : List Nat} (hc : closedB h c = true) {o o' : Nat} {l : Lbl}
+    (he : (o, l, o') ∈ h) (ho : o ∈ c) : o' ∈ c := by
+  unfold closedB at hc
+  rw [List.all_eq_true] at hc
+  have := hc (o, l, o') he
+  simpa [ho] using this
+
+/-- a concrete path stays inside any abstractly closed set that contains its start -/
+theorem reach_closed {a : A} {σ : St} {c : List Nat} (hnt : ¬ a.top = true)
+    (hh : ∀ e, e ∈ σ.heap → a.mayE (absE e)) (hc : closedB a.heap c = true)
+    {o o' : Obj} (hr : Reach σ.heap o o') : o.1 ∈ c → o'.1 ∈ c := by
+  induction hr with
+  | refl o => exact id
+  | step o l o₁ o₂ he _ ih =>
+    intro ho
+    apply ih
+    rcases hh _ he with ht | hm
+    · exact absurd ht hnt
+    · exact closed_step hc hm ho
+
+/-- the analysis never forgets a possibly-written parameter, a possibly-returned object or a heap edge -/
 theorem w_mono (np : Nat) (s : Stmt) :
-    ∀ (a : A), (∀ o, a.mayW o → (ana np s a).mayW o) ∧ (∀ o, a.mayR o → (ana np s a).mayR o) := by
+    ∀ (a : A), (∀ o, a.mayW o → (ana np s a).mayW o) ∧ (∀ o, a.mayR o → (ana np s a).mayR o) ∧
+      (∀ e, a.mayE e → (ana np s a).mayE e) := by
   induction s with
-  | skip => intro a; exact ⟨fun o h => h, fun o h => h⟩
-  | bind x src => intro a; cases src <;> exact ⟨fun o h => h, fun o h => h⟩
+  | skip => intro a; exact ⟨fun o h => h, fun o h => h, fun e h => h⟩
+  | bind x src =>
+    intro a
+    cases src with
+    | reach ys =>
+      show (∀ o, a.mayW o → (if closedB a.heap (closeN a.heap (a.heap.length + 1) (ys.flatMap a.raw).eraseDups) then
+          a.set x (closeN a.heap (a.heap.length + 1) (ys.flatMap a.raw).eraseDups) else topA).mayW o) ∧
+        (∀ o, a.mayR o → (if closedB a.heap (closeN a.heap (a.heap.length + 1) (ys.flatMap a.raw).eraseDups) then
+          a.set x (closeN a.heap (a.heap.length + 1) (ys.flatMap a.raw).eraseDups) else topA).mayR o) ∧
+        (∀ e, a.mayE e → (if closedB a.heap (closeN a.heap (a.heap.length + 1) (ys.flatMap a.raw).eraseDups) then
+          a.set x (closeN a.heap (a.heap.length + 1) (ys.flatMap a.raw).eraseDups) else topA).mayE e)
+      split
+      · exact ⟨fun o h => h, fun o h => h, fun e h => h⟩
+      · exact ⟨fun _ _ => Or.inl rfl, fun _ _ => Or.inl rfl, fun _ _ => Or.inl rfl⟩
+    | _ => exact ⟨fun o h => h, fun o h => h, fun e h => h⟩
   | write x =>
     intro a
-    refine ⟨fun o h => ?_, fun o h => h⟩
+    refine ⟨fun o h => ?_, fun o h => h, fun e h => h⟩
     rcases h with h | h
     · exact Or.inl h
-    · right; show o ∈ (a.raw x ++ a.w).eraseDups; simp [h]
+    · right; show o ∈ ((a.raw x).filter (· < np) ++ a.w).eraseDups; simp [h]
   | ret x =>
     intro a
-    refine ⟨fun o h => h, fun o h => ?_⟩
+    refine ⟨fun o h => h, fun o h => ?_, fun e h => h⟩
     rcases h with h | h
     · exact Or.inl h
     · right; show o ∈ (a.raw x ++ a.r).eraseDups; simp [h]
+  | store x l y =>
+    intro a
+    refine ⟨fun o h => h, fun o h => h, fun e h => ?_⟩
+    rcases h with h | h
+    · exact Or.inl h
+    · right
+      show e ∈ ((a.raw x).flatMap (fun p => (a.raw y).map (fun p' => (p, l, p'))) ++ a.heap).eraseDups
+      rw [List.mem_eraseDups]
+      exact List.mem_append_right _ h
   | seq s t ihs iht =>
     intro a
-    exact ⟨fun o h => (iht _).1 o ((ihs a).1 o h), fun o h => (iht _).2 o ((ihs a).2 o h)⟩
+    exact ⟨fun o h => (iht _).1 o ((ihs a).1 o h), fun o h => (iht _).2.1 o ((ihs a).2.1 o h),
+           fun e h => (iht _).2.2 e ((ihs a).2.2 e h)⟩
   | branch s t ihs _ =>
     intro a
-    exact ⟨fun o h => mayW_join_l _ _ o ((ihs a).1 o h), fun o h => mayR_join_l _ _ o ((ihs a).2 o h)⟩
+    exact ⟨fun o h => mayW_join_l _ _ o ((ihs a).1 o h), fun o h => mayR_join_l _ _ o ((ihs a).2.1 o h),
+           fun e h => mayE_join_l _ _ e ((ihs a).2.2 e h)⟩
   | loop b _ =>
     intro a
-    show (∀ o, a.mayW o → (match iter (ana np b) 8 a with
+    show (∀ o, a.mayW o → (match iter (ana np b) 12 a with
       | some a' => if leA (ana np b a') a' && leA a a' then a' else topA
-      | none => topA).mayW o) ∧ (∀ o, a.mayR o → (match iter (ana np b) 8 a with
+      | none => topA).mayW o) ∧ (∀ o, a.mayR o → (match iter (ana np b) 12 a with
       | some a' => if leA (ana np b a') a' && leA a a' then a' else topA
-      | none => topA).mayR o)
+      | none => topA).mayR o) ∧ (∀ e, a.mayE e → (match iter (ana np b) 12 a with
+      | some a' => if leA (ana np b a') a' && leA a a' then a' else topA
+      | none => topA).mayE e)
     split
     · split
       · rename_i a' _ hc
         simp at hc
-        exact ⟨fun o h => le_mayW hc.2 o h, fun o h => le_mayR hc.2 o h⟩
-      · exact ⟨fun _ _ => Or.inl rfl, fun _ _ => Or.inl rfl⟩
-    · exact ⟨fun _ _ => Or.inl rfl, fun _ _ => Or.inl rfl⟩
+        exact ⟨fun o h => le_mayW hc.2 o h, fun o h => le_mayR hc.2 o h, fun e h => le_mayE hc.2 e h⟩
+      · exact ⟨fun _ _ => Or.inl rfl, fun _ _ => Or.inl rfl, fun _ _ => Or.inl rfl⟩
+    · exact ⟨fun _ _ => Or.inl rfl, fun _ _ => Or.inl rfl, fun _ _ => Or.inl rfl⟩
 
 theorem wrel_mono (np : Nat) (s : Stmt) {σ : St} {a : A} (h : WRel np σ a) : WRel np σ (ana np s a) :=
-  ⟨fun o h1 h2 => (w_mono np s a).1 o (h.1 o h1 h2), fun o h1 h2 => (w_mono np s a).2 o (h.2 o h1 h2)⟩
+  ⟨fun o h1 h2 => (w_mono np s a).1 _ (h.1 o h1 h2), fun o h1 => (w_mono np s a).2.1 _ (h.2.1 o h1),
+   fun e he => (w_mono np s a).2.2 _ (h.2.2 e he)⟩
 
 theorem loop_inv (np : Nat) (b : Stmt) (P Q : St → Prop)
     (hbody : ∀ σ σ₁, P σ → Exec np b σ true σ₁ → P σ₁)
@@ -230,10 +369,33 @@ theorem loop_inv (np : Nat) (b : Stmt) (P Q : St → Prop)
     exact ⟨(fun h => by cases h), hraise _ _ hp h1⟩
   | _ => cases hs
 
+/-- allocating an object of site `k` and binding it to `x` -/
+theorem rel_alloc {np : Nat} {σ : St} {a : A} {x : Var} {k : Nat} {ps : List Nat}
+    (hr : Rel np σ a) (hk : np + k ∈ ps) :
+    Rel np { σ with env := upd σ.env x (np + k, σ.next), next := σ.next + 1, objs := (np + k, σ.next) :: σ.objs }
+      { a.set x ps with alloc := ((np + k) :: a.alloc).eraseDups } := by
+  refine ⟨?_, ?_, hr.2.2⟩
+  · exact env_bind (a := a) (σ := σ) hr.1 (Or.inr hk)
+  · intro o ho
+    simp at ho
+    rcases ho with rfl | ho
+    · right; show np + k ∈ ((np + k) :: a.alloc).eraseDups; simp
+    · rcases hr.2.1 o ho with ht | hm
+      · exact Or.inl ht
+      · right; show o.1 ∈ ((np + k) :: a.alloc).eraseDups; simp [hm]
+
+/-- the allocated objects stay covered when only a site is added to `alloc` -/
+theorem objs_alloc {a : A} {σ : St} {k : Nat} (h : ∀ o, o ∈ σ.objs → a.mayK o.1) (ps : List Nat) (x : Var) :
+    ∀ o, o ∈ σ.objs → ({ a.set x ps with alloc := (k :: a.alloc).eraseDups } : A).mayK o.1 := by
+  intro o ho
+  rcases h o ho with ht | hm
+  · exact Or.inl ht
+  · right; show o.1 ∈ (k :: a.alloc).eraseDups; simp [hm]
+
 /-- Soundness of the abstract interpretation: for every program, every start state related to the
 abstract input and every execution (completed `d = true` or raised `d = false`), the final state is
-related to the abstract output (completed), and in both cases every written / returned parameter is
-reported. -/
+related to the abstract output (completed), and in both cases every written parameter, every returned object and
+every heap edge is covered by the abstract output. -/
 theorem sound (np : Nat) (s : Stmt) :
     ∀ (a : A) (σ : St) (d : Bool) (σ' : St), Exec np s σ d σ' → Rel np σ a →
       (d = true → Rel np σ' (ana np s a)) ∧ WRel np σ' (ana np s a) := by
@@ -241,86 +403,161 @@ theorem sound (np : Nat) (s : Stmt) :
   | skip =>
     intro a σ d σ' h hr
     cases h with
-    | raise => exact ⟨(fun h => by cases h), hr.2.1⟩
-    | skip => exact ⟨fun _ => hr, hr.2.1⟩
+    | raise => exact ⟨(fun h => by cases h), hr.2.2⟩
+    | skip => exact ⟨fun _ => hr, hr.2.2⟩
   | bind x src =>
     intro a σ d σ' h hr
     cases h with
-    | raise => exact ⟨(fun h => by cases h), wrel_mono np _ hr.2.1⟩
+    | raise => exact ⟨(fun h => by cases h), wrel_mono np _ hr.2.2⟩
     | bindParam _ i _ hi =>
-      have : Rel np { σ with env := upd σ.env x i } (a.set x [i]) := by
-        refine ⟨?_, hr.2.1, hr.2.2⟩
-        intro y o hy ho
-        by_cases hyx : y = x
-        · subst hyx; simp [upd] at hy; subst hy; exact may_set_eq (by simp)
-        · simp [upd, hyx] at hy; exact may_set_ne hyx (hr.1 y o hy ho)
-      exact ⟨fun _ => this, this.2.1⟩
-    | bindFresh =>
-      have : Rel np { σ with env := upd σ.env x σ.next, next := σ.next + 1 } (a.set x []) := by
-        refine ⟨?_, hr.2.1, Nat.le_succ_of_le hr.2.2⟩
-        intro y o hy ho
-        by_cases hyx : y = x
-        · subst hyx; simp [upd] at hy; subst hy; exact absurd ho (Nat.not_lt.mpr hr.2.2)
-        · simp [upd, hyx] at hy; exact may_set_ne hyx (hr.1 y o hy ho)
-      exact ⟨fun _ => this, this.2.1⟩
+      have : Rel np { σ with env := upd σ.env x (i, 0) } (a.set x [i]) :=
+        ⟨env_bind (a := a) (σ := σ) hr.1 (Or.inr (by simp)), hr.2.1, hr.2.2⟩
+      exact ⟨fun _ => this, this.2.2⟩
+    | bindFresh _ k =>
+      have := rel_alloc (x := x) (k := k) (ps := [np + k]) hr (by simp)
+      exact ⟨fun _ => this, this.2.2⟩
     | bindAlias _ ys y o _ hy ho =>
       have : Rel np { σ with env := upd σ.env x o } (a.set x (ys.flatMap a.raw)) := by
-        refine ⟨?_, hr.2.1, hr.2.2⟩
-        intro z o' hz ho'
-        by_cases hzx : z = x
-        · subst hzx; simp [upd] at hz; subst hz
-          rcases hr.1 y o ho ho' with ht | hm
+        refine ⟨env_bind (a := a) (σ := σ) hr.1 ?_, hr.2.1, hr.2.2⟩
+        rcases hr.1 y o ho with ht | hm
+        · exact Or.inl ht
+        · exact Or.inr (List.mem_flatMap.mpr ⟨y, hy, hm⟩)
+      exact ⟨fun _ => this, this.2.2⟩
+    | bindLoadEdge _ ys l k y o l' o' _ hy ho he hl =>
+      have : Rel np { σ with env := upd σ.env x o' }
+          { a.set x ((np + k) :: ((ys.flatMap a.raw).filter (· < np) ++ targets a.heap (ys.flatMap a.raw) l)) with
+            alloc := ((np + k) :: a.alloc).eraseDups } := by
+        refine ⟨?_, objs_alloc hr.2.1 _ _, hr.2.2⟩
+        apply env_bind (a := a) (σ := σ) hr.1
+        rcases hr.1 y o ho with ht | hm
+        · exact Or.inl ht
+        · rcases hr.2.2.2.2 _ he with ht | hm'
           · exact Or.inl ht
-          · exact may_set_eq (List.mem_flatMap.mpr ⟨y, hy, hm⟩)
-        · simp [upd, hzx] at hz; exact may_set_ne hzx (hr.1 z o' hz ho')
-      exact ⟨fun _ => this, this.2.1⟩
+          · right
+            apply List.mem_cons_of_mem
+            apply List.mem_append_right
+            exact mem_targets hm' (List.mem_flatMap.mpr ⟨y, hy, hm⟩) hl
+      exact ⟨fun _ => this, this.2.2⟩
+    | bindLoadSelf _ ys l k y o _ hy ho hp =>
+      have : Rel np { σ with env := upd σ.env x o }
+          { a.set x ((np + k) :: ((ys.flatMap a.raw).filter (· < np) ++ targets a.heap (ys.flatMap a.raw) l)) with
+            alloc := ((np + k) :: a.alloc).eraseDups } := by
+        refine ⟨?_, objs_alloc hr.2.1 _ _, hr.2.2⟩
+        apply env_bind (a := a) (σ := σ) hr.1
+        rcases hr.1 y o ho with ht | hm
+        · exact Or.inl ht
+        · right
+          apply List.mem_cons_of_mem
+          apply List.mem_append_left
+          rw [List.mem_filter]
+          exact ⟨List.mem_flatMap.mpr ⟨y, hy, hm⟩, by simpa using hp⟩
+      exact ⟨fun _ => this, this.2.2⟩
+    | bindLoadNew _ ys l k =>
+      have := rel_alloc (x := x) (k := k)
+        (ps := (np + k) :: ((ys.flatMap a.raw).filter (· < np) ++ targets a.heap (ys.flatMap a.raw) l)) hr (by simp)
+      exact ⟨fun _ => this, this.2.2⟩
+    | bindReach _ ys y o o' _ hy ho hreach =>
+      show (true = true → Rel np { σ with env := upd σ.env x o' }
+          (if closedB a.heap (closeN a.heap (a.heap.length + 1) (ys.flatMap a.raw).eraseDups) then
+            a.set x (closeN a.heap (a.heap.length + 1) (ys.flatMap a.raw).eraseDups) else topA)) ∧
+        WRel np { σ with env := upd σ.env x o' }
+          (if closedB a.heap (closeN a.heap (a.heap.length + 1) (ys.flatMap a.raw).eraseDups) then
+            a.set x (closeN a.heap (a.heap.length + 1) (ys.flatMap a.raw).eraseDups) else topA)
+      split
+      · rename_i hc
+        have : Rel np { σ with env := upd σ.env x o' }
+            (a.set x (closeN a.heap (a.heap.length + 1) (ys.flatMap a.raw).eraseDups)) := by
+          refine ⟨env_bind (a := a) (σ := σ) hr.1 ?_, hr.2.1, hr.2.2⟩
+          by_cases hnt : a.top = true
+          · exact Or.inl hnt
+          · right
+            rcases hr.1 y o ho with ht | hm
+            · exact absurd ht hnt
+            · apply reach_closed hnt hr.2.2.2.2 hc hreach
+              apply closeN_mono
+              rw [List.mem_eraseDups]
+              exact List.mem_flatMap.mpr ⟨y, hy, hm⟩
+        exact ⟨fun _ => this, this.2.2⟩
+      · exact ⟨fun _ => rel_top, wrel_top⟩
     | bindUnknown _ o _ ho =>
-      have : Rel np { σ with env := upd σ.env x o } (a.set x (allParams np)) := by
-        refine ⟨?_, hr.2.1, hr.2.2⟩
-        intro z o' hz ho'
-        by_cases hzx : z = x
-        · subst hzx; simp [upd] at hz; subst hz
-          exact may_set_eq (by simp [allParams, ho'])
-        · simp [upd, hzx] at hz; exact may_set_ne hzx (hr.1 z o' hz ho')
-      exact ⟨fun _ => this, this.2.1⟩
+      have : Rel np { σ with env := upd σ.env x o } (a.set x (allParams np ++ a.alloc)) := by
+        refine ⟨env_bind (a := a) (σ := σ) hr.1 ?_, hr.2.1, hr.2.2⟩
+        rcases ho with hp | hm
+        · right; simp [allParams, hp]
+        · rcases hr.2.1 o hm with ht | hk
+          · exact Or.inl ht
+          · right; simp [hk]
+      exact ⟨fun _ => this, this.2.2⟩
   | write x =>
     intro a σ d σ' h hr
     cases h with
-    | raise => exact ⟨(fun h => by cases h), wrel_mono np _ hr.2.1⟩
+    | raise => exact ⟨(fun h => by cases h), wrel_mono np _ hr.2.2⟩
     | write _ o _ ho =>
-      have : Rel np { σ with written := o :: σ.written } { a with w := (a.raw x ++ a.w).eraseDups } := by
-        refine ⟨fun y o' hy ho' => hr.1 y o' hy ho', ⟨?_, fun o' hm ho' => hr.2.1.2 o' hm ho'⟩, hr.2.2⟩
+      have : Rel np { σ with written := o :: σ.written } { a with w := ((a.raw x).filter (· < np) ++ a.w).eraseDups } := by
+        refine ⟨fun y o' hy => hr.1 y o' hy, hr.2.1, ⟨?_, hr.2.2.2.1, hr.2.2.2.2⟩⟩
         intro o' hm ho'
         simp at hm
         rcases hm with rfl | hm
-        · rcases hr.1 x o' ho ho' with ht | hm'
+        · rcases hr.1 x o' ho with ht | hm'
           · exact Or.inl ht
-          · right; show o' ∈ (a.raw x ++ a.w).eraseDups; simp [hm']
-        · rcases hr.2.1.1 o' hm ho' with ht | hm'
+          · right
+            show o'.1 ∈ ((a.raw x).filter (· < np) ++ a.w).eraseDups
+            simp [hm', ho']
+        · rcases hr.2.2.1 o' hm ho' with ht | hm'
           · exact Or.inl ht
-          · right; show o' ∈ (a.raw x ++ a.w).eraseDups; simp [hm']
-      exact ⟨fun _ => this, this.2.1⟩
+          · right; show o'.1 ∈ ((a.raw x).filter (· < np) ++ a.w).eraseDups; simp [hm']
+      exact ⟨fun _ => this, this.2.2⟩
   | ret x =>
     intro a σ d σ' h hr
     cases h with
-    | raise => exact ⟨(fun h => by cases h), wrel_mono np _ hr.2.1⟩
+    | raise => exact ⟨(fun h => by cases h), wrel_mono np _ hr.2.2⟩
     | ret _ o _ ho =>
       have : Rel np { σ with returned := o :: σ.returned } { a with r := (a.raw x ++ a.r).eraseDups } := by
-        refine ⟨fun y o' hy ho' => hr.1 y o' hy ho', ⟨fun o' hm ho' => hr.2.1.1 o' hm ho', ?_⟩, hr.2.2⟩
-        intro o' hm ho'
+        refine ⟨fun y o' hy => hr.1 y o' hy, hr.2.1, ⟨hr.2.2.1, ?_, hr.2.2.2.2⟩⟩
+        intro o' hm
         simp at hm
         rcases hm with rfl | hm
-        · rcases hr.1 x o' ho ho' with ht | hm'
+        · rcases hr.1 x o' ho with ht | hm'
           · exact Or.inl ht
-          · right; show o' ∈ (a.raw x ++ a.r).eraseDups; simp [hm']
-        · rcases hr.2.1.2 o' hm ho' with ht | hm'
+          · right
+            show o'.1 ∈ (a.raw x ++ a.r).eraseDups
+            simp [hm']
+        · rcases hr.2.2.2.1 o' hm with ht | hm'
           · exact Or.inl ht
-          · right; show o' ∈ (a.raw x ++ a.r).eraseDups; simp [hm']
-      exact ⟨fun _ => this, this.2.1⟩
+          · right; show o'.1 ∈ (a.raw x ++ a.r).eraseDups; simp [hm']
+      exact ⟨fun _ => this, this.2.2⟩
+  | store x l y =>
+    intro a σ d σ' h hr
+    cases h with
+    | raise => exact ⟨(fun h => by cases h), wrel_mono np _ hr.2.2⟩
+    | store _ _ _ o o' _ ho ho' =>
+      have : Rel np { σ with heap := (o, l, o') :: σ.heap }
+          { a with heap := ((a.raw x).flatMap (fun p => (a.raw y).map (fun p' => (p, l, p'))) ++ a.heap).eraseDups } := by
+        refine ⟨fun z o₁ hz => hr.1 z o₁ hz, hr.2.1, ⟨hr.2.2.1, hr.2.2.2.1, ?_⟩⟩
+        intro e he
+        simp at he
+        rcases he with rfl | he
+        · rcases hr.1 x o ho with ht | hm
+          · exact Or.inl ht
+          · rcases hr.1 y o' ho' with ht | hm'
+            · exact Or.inl ht
+            · right
+              show absE (o, l, o') ∈ ((a.raw x).flatMap (fun p => (a.raw y).map (fun p' => (p, l, p'))) ++ a.heap).eraseDups
+              rw [List.mem_eraseDups]
+              apply List.mem_append_left
+              rw [List.mem_flatMap]
+              exact ⟨o.1, hm, List.mem_map.mpr ⟨o'.1, hm', rfl⟩⟩
+        · rcases hr.2.2.2.2 e he with ht | hm
+          · exact Or.inl ht
+          · right
+            show absE e ∈ ((a.raw x).flatMap (fun p => (a.raw y).map (fun p' => (p, l, p'))) ++ a.heap).eraseDups
+            rw [List.mem_eraseDups]
+            exact List.mem_append_right _ hm
+      exact ⟨fun _ => this, this.2.2⟩
   | seq s t ihs iht =>
     intro a σ d σ' h hr
     cases h with
-    | raise => exact ⟨(fun h => by cases h), wrel_mono np _ hr.2.1⟩
+    | raise => exact ⟨(fun h => by cases h), wrel_mono np _ hr.2.2⟩
     | seq _ _ _ σ₁ _ _ h1 h2 =>
       exact iht _ σ₁ d σ' h2 ((ihs a σ true σ₁ h1 hr).1 rfl)
     | seqRaise _ _ _ _ h1 =>
@@ -328,7 +565,7 @@ theorem sound (np : Nat) (s : Stmt) :
   | branch s t ihs iht =>
     intro a σ d σ' h hr
     cases h with
-    | raise => exact ⟨(fun h => by cases h), wrel_mono np _ hr.2.1⟩
+    | raise => exact ⟨(fun h => by cases h), wrel_mono np _ hr.2.2⟩
     | branchL _ _ _ _ _ h1 =>
       have := ihs a σ d σ' h1 hr
       exact ⟨fun hd => rel_join_l _ _ (this.1 hd), wrel_join_l _ _ this.2⟩
@@ -337,9 +574,9 @@ theorem sound (np : Nat) (s : Stmt) :
       exact ⟨fun hd => rel_join_r _ _ (this.1 hd), wrel_join_r _ _ this.2⟩
   | loop b ih =>
     intro a σ d σ' h hr
-    show (d = true → Rel np σ' (match iter (ana np b) 8 a with
+    show (d = true → Rel np σ' (match iter (ana np b) 12 a with
       | some a' => if leA (ana np b a') a' && leA a a' then a' else topA
-      | none => topA)) ∧ WRel np σ' (match iter (ana np b) 8 a with
+      | none => topA)) ∧ WRel np σ' (match iter (ana np b) 12 a with
       | some a' => if leA (ana np b a') a' && leA a a' then a' else topA
       | none => topA)
     have key : ∀ a', (leA (ana np b a') a' = true) → Rel np σ a' →
@@ -348,10 +585,8 @@ theorem sound (np : Nat) (s : Stmt) :
       exact loop_inv np b (fun τ => Rel np τ a') (fun τ => WRel np τ a')
         (fun τ τ₁ hp he => rel_le hpost ((ih a' τ true τ₁ he hp).1 rfl))
         (fun τ τ₁ hp he => wrel_le hpost (ih a' τ false τ₁ he hp).2)
-        (fun τ hp => hp.2.1) σ d σ' h hra
-    have htop : (d = true → Rel np σ' topA) ∧ WRel np σ' topA := by
-      have hpost : leA (ana np b topA) topA = true := by simp [leA, topA]
-      exact key topA hpost (rel_top hr.2.2)
+        (fun τ hp => hp.2.2) σ d σ' h hra
+    have htop : (d = true → Rel np σ' topA) ∧ WRel np σ' topA := ⟨fun _ => rel_top, wrel_top⟩
     split
     · split
       · rename_i a' _ hc
